@@ -345,3 +345,29 @@ func CancelledWaiterFirstSymbolic() {
 func CancelledWaiterFirstSymbolicPb2() {
 	cancelled(2, attReq("a", []int{0}), concreteSingle(3, 5), concreteSingle(2, 5))
 }
+
+// BatchBetweenSingles: a batch [K1,K2] arriving while K2 is busy and K1 is free, with a rival single
+// request for K1 admitted while the batch waits: the batch must not enter K1's read-check-write while
+// the rival is inside it.  Conflicting targets, so overlapping evaluations show as two approvals.
+func BatchBetweenSingles() {
+	mk := func(keys []int, s, t uint64) *req {
+		r := &req{keys: keys, action: ruler.ActionSignBeaconAttestation}
+		for range keys {
+			r.s, r.t = append(r.s, s), append(r.t, t)
+		}
+		return r
+	}
+	concurrent(2, 2, false, false, mk([]int{1}, 1, 5), mk([]int{0, 1}, 2, 5), mk([]int{0}, 3, 5))
+}
+
+// BatchBetweenSinglesSymbolic: the same with an arbitrary rival request.
+func BatchBetweenSinglesSymbolic() {
+	mk := func(keys []int, s, t uint64) *req {
+		r := &req{keys: keys, action: ruler.ActionSignBeaconAttestation}
+		for range keys {
+			r.s, r.t = append(r.s, s), append(r.t, t)
+		}
+		return r
+	}
+	concurrent(2, 2, false, false, mk([]int{1}, 1, 5), mk([]int{0, 1}, 2, 5), attReq("c", []int{0}))
+}
